@@ -30,9 +30,10 @@ def _mk_results(case):
             data = np.array([float(F(case["data"][i])) if case["data"][i] is not None else np.nan for i in rows],
                             dtype="float64")
             tinp = np.array([case["t0"] + i for i in rows], dtype="int64").astype("datetime64[s]").astype("datetime64[ns]")
-            zinp = np.array([float(10 + i) for i in rows], dtype="float64")
-            lat = np.array([float(20 + i) for i in rows], dtype="float64")
-            lon = np.array([float(30 + i) for i in rows], dtype="float64")
+            zo = case.get("zero_axes", [False, False, False])
+            zinp = np.array([0.0 if zo[0] else float(10 + i) for i in rows], dtype="float64")   # a surface sensor: depth 0
+            lat = np.array([0.0 if zo[1] else float(20 + i) for i in rows], dtype="float64")    # on the equator
+            lon = np.array([0.0 if zo[2] else float(30 + i) for i in rows], dtype="float64")
         else:
             # what the streams pass when an axis is absent
             data = np.array([float(F(case["data"][i])) if case["data"][i] is not None else np.nan
@@ -149,9 +150,10 @@ class Collect(Adapter):
             data = clist([core.obs(None if case["data"][i] is None else F(case["data"][i])) for i in rows])
             if r["axes"]:
                 t = clist([f"Some {q(case['t0'] + i)}" for i in rows])
-                zz = clist([f"Some {q(10 + i)}" for i in rows])
-                la = clist([f"Some {q(20 + i)}" for i in rows])
-                lo = clist([f"Some {q(30 + i)}" for i in rows])
+                zo = case.get("zero_axes", [False, False, False])
+                zz = clist([f"Some {q(0 if zo[0] else 10 + i)}" for i in rows])
+                la = clist([f"Some {q(0 if zo[1] else 20 + i)}" for i in rows])
+                lo = clist([f"Some {q(0 if zo[2] else 30 + i)}" for i in rows])
                 pay = clist([data, t, zz, la, lo])
             else:
                 pay = clist([data, "[]", "[]", "[]", "[]"])
@@ -244,7 +246,11 @@ def gen_collect(tier, rng, how="list"):
         if not disjoint:
             wf = False
         data = [None if rng.random() < 0.15 else core.fr(F(rng.randint(-64, 640), 64)) for _ in range(n)]
-        cases.append({"how": how, "n": n, "t0": 1577836800 + ci, "data": data, "rs": rs, "wf": wf})
+        zero_axes = [rng.random() < 0.3, rng.random() < 0.2, rng.random() < 0.2]
+        if rng.random() < 0.15:
+            data = [None if d is None else "0" for d in data]      # all-zero data as well
+        cases.append({"how": how, "n": n, "t0": 1577836800 + ci, "data": data, "rs": rs, "wf": wf,
+                      "zero_axes": zero_axes})
     # a few malformed histories: flag array of the wrong length (numpy broadcast / ValueError)
     for _ in (1,):
         cases.append({"how": how, "n": 3, "t0": 1577836800, "data": ["1", "2", "3"], "wf": False,
